@@ -36,8 +36,10 @@ from pathlib import Path
 VERIF = Path(__file__).resolve().parent.parent
 LEAN = VERIF / "lean"
 REPO = Path(os.environ.get("VERIF_REPO", "/repo"))
-EVIDENCE = VERIF / "evidence"
-REPLAYS = VERIF / "replays"
+# (tools/seed_run.py and tools/benign_run.py divert both, so that a run against a patched tree never overwrites the
+#  evidence of the unchanged tree)
+EVIDENCE = Path(os.environ.get("VERIF_EVIDENCE_DIR", VERIF / "evidence"))
+REPLAYS = Path(os.environ.get("VERIF_REPLAY_DIR", VERIF / "replays"))
 CORPUS = VERIF / "harness" / "corpus"
 KNOWN_FINDINGS = VERIF / "known_findings.json"
 
